@@ -8,6 +8,7 @@ mod gen_types;
 mod pk;
 mod rt;
 mod st;
+mod vrt;
 
 fn handle(line: &str) -> String {
     let mut it = line.split_ascii_whitespace();
@@ -18,7 +19,15 @@ fn handle(line: &str) -> String {
     let out = match stream {
         "pk" => pk::run(&args),
         "st" => st::run(&args),
-        "T" => "decl".into(),
+        "T" | "V" => "decl".into(),
+        "tv" => match args.as_slice() {
+            [tid, state, rest @ ..] => match (tid.parse::<usize>(), state.parse::<usize>()) {
+                (Ok(tid), Ok(state)) => std::panic::catch_unwind(std::panic::AssertUnwindSafe(|| gen_types::dispatch_tv(tid, state, rest)))
+                    .unwrap_or_else(|_| "panic".into()),
+                _ => "bad-op".into(),
+            },
+            _ => "bad-op".into(),
+        },
         "tk" => match args.split_first() {
             Some((tid, rest)) => match tid.parse::<usize>() {
                 Ok(tid) => std::panic::catch_unwind(|| gen_types::dispatch_tk(tid, rest)).unwrap_or_else(|_| "panic".into()),
